@@ -30,18 +30,26 @@ class D(B, C2):
     pass
 
 
+class X(object):    # unrelated to everything below A
+    pass
+
+
+class DX(D, X):     # only a value class: an instance is in the chain D < B < A and in X
+    pass
+
+
 class Dflt(object):
     pass
 
 
 # two lattices: C05 (C unrelated to A) and C06 (diamond below A)
 CLASSES5 = {'Any': object, 'A': A, 'B': B, 'C': C}
-CLASSES6 = {'Any': object, 'A': A, 'B': B, 'C': C2, 'D': D}
+CLASSES6 = {'Any': object, 'A': A, 'B': B, 'C': C2, 'D': D, 'X': X}
 LAT5 = M.Lattice({'A': (), 'B': ('A',), 'C': ()}, {'a': 'A', 'b': 'B', 'c': 'C', 'n': None})
-LAT6 = M.Lattice({'A': (), 'B': ('A',), 'C': ('A',), 'D': ('B', 'C')},
-                 {'a': 'A', 'b': 'B', 'c': 'C', 'd': 'D', 'n': None})
+LAT6 = M.Lattice({'A': (), 'B': ('A',), 'C': ('A',), 'D': ('B', 'C'), 'X': (), 'DX': ('D', 'X')},
+                 {'a': 'A', 'b': 'B', 'c': 'C', 'd': 'D', 'e': 'DX', 'n': None})
 VALUES5 = {'a': A(), 'b': B(), 'c': C(), 'n': None}
-VALUES6 = {'a': A(), 'b': B(), 'c': C2(), 'd': D(), 'n': None}
+VALUES6 = {'a': A(), 'b': B(), 'c': C2(), 'd': D(), 'e': DX(), 'n': None}
 
 CONVENTION = conventions.CamelCaseConvention()
 LOG = []            # keys of evaluated arguments, in order (cleared per observation)
